@@ -878,12 +878,11 @@ def compile_comprehension(compiler, expr, root, parts, final):
             if p.tag in ("if", "do"):
                 tag_value = compiler.compile(p.value)
             else:
-                tag_value = [
-                    compiler._storeize(p.value[0], compiler.compile(p.value[0])),
-                    compiler.compile(p.value[1]),
-                ]
+                target = compiler._storeize(p.value[0], compiler.compile(p.value[0]))
+                n_seen = None if is_for else len(scope.seen)
+                tag_value = [target, compiler.compile(p.value[1])]
                 if not is_for:
-                    scope.iterator(tag_value[0])
+                    scope.iterator(target, [] if new_parts else scope.seen[n_seen:])
             new_parts.append(Tag(p.tag, tag_value))
         parts = new_parts
 
